@@ -412,7 +412,13 @@ io_harness!(c18_nonblocking_read, { let o = run_buf(Entry::Read, 1); c18_nonbloc
 io_harness!(c18_nonblocking_send, { let o = run_buf(Entry::Send, 1); c18_nonblocking_oracle(&o); });
 
 // ------------------------------------------------------------------ vectored calls (C16 + C17)
-pub(super) const NV: usize = 2; // caller iovecs
+// caller iovecs: 2 in the regular build, 3 when the scratch tree is compiled with `--cfg ocv_nv3` (the `*_3iov` harnesses:
+// a partial transfer can then cover two whole buffers and end inside a third, which is what exercises the rebuild's
+// "skip a buffer that is already done" branch twice in a row)
+#[cfg(not(ocv_nv3))]
+pub(super) const NV: usize = 2;
+#[cfg(ocv_nv3)]
+pub(super) const NV: usize = 3;
 pub(super) const VLEN: usize = 2; // bytes per caller iovec (0..=VLEN)
 
 pub(super) static mut BUFS: [[u8; VLEN]; NV] = [[0x5a; VLEN]; NV]; // the caller's buffers
@@ -523,6 +529,12 @@ pub(super) fn run_vec(entry: VEntry) -> VOutcome {
     unsafe { SCRIPT_LEN = 2 }; // vectored calls: 2 scripted responses, then the peer resets
     unsafe { BUFS = kani::any() };
     let blocking0 = unsafe { BLOCKING };
+    #[cfg(ocv_nv3)]
+    unsafe {
+        // 3-iovec variant: the environment is fixed to the plain case (blocking descriptor, no time limit, waits succeed);
+        // mode / limit / wait-failure handling is decided by the 2-iovec harnesses
+        kani::assume(BLOCKING && LIMIT == u64::MAX && WAIT_FAILS_AT == u32::MAX);
+    }
     let mut iovs = [libc::iovec { iov_base: std::ptr::null_mut(), iov_len: 0 }; NV];
     let mut total = 0;
     let mut j = 0;
@@ -599,16 +611,46 @@ pub(super) fn c17_vec_oracle(_o: &VOutcome) {
     }
 }
 
+#[cfg(not(ocv_nv3))]
 io_harness!(c16_readv, 4, { let o = run_vec(VEntry::Readv); c16_vec_oracle(&o, true); });
+#[cfg(not(ocv_nv3))]
 io_harness!(c16_writev, 4, { let o = run_vec(VEntry::Writev); c16_vec_oracle(&o, false); });
+#[cfg(not(ocv_nv3))]
 io_harness!(c16_recvmsg, 4, { let o = run_vec(VEntry::Recvmsg); c16_vec_oracle(&o, true); });
+#[cfg(not(ocv_nv3))]
 io_harness!(c16_sendmsg, 4, { let o = run_vec(VEntry::Sendmsg); c16_vec_oracle(&o, false); });
+#[cfg(not(ocv_nv3))]
 io_harness!(c17_readv, 4, { let o = run_vec(VEntry::Readv); c17_vec_oracle(&o); });
+#[cfg(not(ocv_nv3))]
 io_harness!(c17_writev, 4, { let o = run_vec(VEntry::Writev); c17_vec_oracle(&o); });
+#[cfg(not(ocv_nv3))]
 io_harness!(c17_recvmsg, 4, { let o = run_vec(VEntry::Recvmsg); c17_vec_oracle(&o); });
+#[cfg(not(ocv_nv3))]
 io_harness!(c17_sendmsg, 4, { let o = run_vec(VEntry::Sendmsg); c17_vec_oracle(&o); });
+#[cfg(not(ocv_nv3))]
 io_harness!(c18_mode_readv, 4, { let o = run_vec(VEntry::Readv); unsafe { kani::assert(BLOCKING == o.blocking0, "the descriptor's blocking mode is left exactly as the caller set it"); } });
+#[cfg(not(ocv_nv3))]
 io_harness!(c18_mode_writev, 4, { let o = run_vec(VEntry::Writev); unsafe { kani::assert(BLOCKING == o.blocking0, "the descriptor's blocking mode is left exactly as the caller set it"); } });
+#[cfg(not(ocv_nv3))]
 io_harness!(c18_mode_recvmsg, 4, { let o = run_vec(VEntry::Recvmsg); unsafe { kani::assert(BLOCKING == o.blocking0, "the descriptor's blocking mode is left exactly as the caller set it"); } });
+#[cfg(not(ocv_nv3))]
 io_harness!(c18_mode_sendmsg, 4, { let o = run_vec(VEntry::Sendmsg); unsafe { kani::assert(BLOCKING == o.blocking0, "the descriptor's blocking mode is left exactly as the caller set it"); } });
 
+
+// 3 caller iovecs of 0..=2 bytes (compiled with --cfg ocv_nv3 only)
+#[cfg(ocv_nv3)]
+io_harness!(c16_readv_3iov, 5, { let o = run_vec(VEntry::Readv); c16_vec_oracle(&o, true); });
+#[cfg(ocv_nv3)]
+io_harness!(c16_writev_3iov, 5, { let o = run_vec(VEntry::Writev); c16_vec_oracle(&o, false); });
+#[cfg(ocv_nv3)]
+io_harness!(c16_recvmsg_3iov, 5, { let o = run_vec(VEntry::Recvmsg); c16_vec_oracle(&o, true); });
+#[cfg(ocv_nv3)]
+io_harness!(c16_sendmsg_3iov, 5, { let o = run_vec(VEntry::Sendmsg); c16_vec_oracle(&o, false); });
+#[cfg(ocv_nv3)]
+io_harness!(c17_readv_3iov, 5, { let o = run_vec(VEntry::Readv); c17_vec_oracle(&o); });
+#[cfg(ocv_nv3)]
+io_harness!(c17_writev_3iov, 5, { let o = run_vec(VEntry::Writev); c17_vec_oracle(&o); });
+#[cfg(ocv_nv3)]
+io_harness!(c17_recvmsg_3iov, 5, { let o = run_vec(VEntry::Recvmsg); c17_vec_oracle(&o); });
+#[cfg(ocv_nv3)]
+io_harness!(c17_sendmsg_3iov, 5, { let o = run_vec(VEntry::Sendmsg); c17_vec_oracle(&o); });
